@@ -102,6 +102,11 @@ def violates(profile, p):
     return v
 
 
+def core_ite(cnd, a, b):
+    from symx.core import ite
+    return ite(cnd, a, b)
+
+
 def tcell_step(k):
     def h(c):
         prof = sym_profile(c)
@@ -149,6 +154,12 @@ def tcell_step(k):
             c.check("C17.b", b_or(viol, quiet), {"what": "in-baseline behaviour reported as a threat", **info})
             # C17.c desensitised watcher stays silent
             c.check("C17.c", b_or(b_not(pre_anergic), quiet), {"what": "anergic T-cell reported a threat", **info})
+            # C17.a-streak: the counter behind the 'repeated anomaly' signal is a CONSECUTIVE streak: a clean
+            # inspection resets it, an anomalous one extends it by one (needed for the inductive reading of C17.a:
+            # the pre-state counter quantified above must mean 'anomalies in a row')
+            want = core_ite(viol, pre_count + 1, 0)
+            c.check("C17.a-streak", b_or(pre_anergic, eq(t.anomaly_count, want)),
+                    {"what": "anomaly streak not reset by a clean inspection / not extended by an anomaly", **info})
             # two genuine signals are acted upon (sanity of the oracle, not demanded by the statement): skipped
     return h
 
@@ -263,7 +274,7 @@ def system(k, slim=True):
 
 HARNESSES = {
     "tcell": {"make": tcell_step, "witness_every": 17, "jobs": lambda tier: [{"k": 1}, {"k": 2}] if tier == "quick" else [{"k": 1}, {"k": 2}, {"k": 3}],
-              "clauses": ["C17.a", "C17.b", "C17.c"]},
+              "clauses": ["C17.a", "C17.b", "C17.c", "C17.a-streak"]},
     "treg": {"make": treg_eval, "witness_every": 5, "jobs": lambda tier: [{}], "clauses": ["C17.d", "C17.d-critical"]},
     "system": {"make": system, "witness_every": 17,
                "jobs": lambda tier: [{"k": 2, "slim": True}] if tier == "quick" else [{"k": 3, "slim": True}, {"k": 1, "slim": False}],
